@@ -42,7 +42,8 @@ contract('configuration.Configuration.get_ike_configuration', params={'src_addr'
 # ---- table lookups -----------------------------------------------------------------------------------------------
 contract('ikesacontroller.IkeSaController._get_ike_sa_by_spi', params={'spi': Bytes}, returns=S, props=['C16'],
          raises={'StopIteration': 'forall(lambda k: at(self.ike_sas, k).my_spi != spi, 0, len(self.ike_sas))'},
-         ensures={'member': 'result in self.ike_sas and result.my_spi == spi'})
+         ensures={'member': 'result in self.ike_sas and result.my_spi == spi',
+                  'index': 'exists(lambda k: 0 <= k and k < len(self.ike_sas) and at(self.ike_sas, k) == result)'})
 
 # ---- what the controller needs from an IKE_SA ---------------------------------------------------------------------
 # the IKE_SA-level contract of process_message as seen from the controller (proved in c_ikesa_flow.py)
